@@ -47,7 +47,8 @@ SPECS = [
     H("h_transcript::serde_read_g1_processed_checked", "C16.K.serde.g1.processed",
       "<G1Projective as ProcessedSerdeObject>::read(_, Processed) never panics on short input and returns Ok only if blst_p1_uncompress succeeded AND the on-curve AND the subgroup oracle said yes",
       ["proofs/src/utils/helpers.rs::<C as ProcessedSerdeObject>::read", "curves/src/bls12_381/g1.rs::G1Projective::from_compressed"],
-      "all buffers of length 0..=48, all oracle answers", "serde-read:g1-processed-contract", est=8, min_covers=2),
+      "all buffers of length 0..=48, all oracle answers", "serde-read:g1-processed-contract", est=8, min_covers=2,
+      oracle_scenario=["g1-decode-offsubgroup", "serde-processed"]),
 ]
 
 
